@@ -77,6 +77,10 @@ def _verify_cdf_params(
     )
 
   input_dim = inputs.shape[1]
+  if sparsity_factor < 1:
+    raise ValueError(
+        f"sparsity_factor = {sparsity_factor} must be at least 1."
+    )
   if units % sparsity_factor != 0:
     raise ValueError(
         f"units = {units} is not divisible by sparsity_factor ="
